@@ -642,6 +642,8 @@ M("C04", "transition: in_history carried", SAS, "            hmm_enter(nhmm, new
 FI = "src/fe_interface.c"
 FSG = "src/fe_sigproc.c"
 # ---- C06 ----------------------------------------------------------------------
+M("C06", "swap: byte view of unparenthesised address", "include/soundswallower/byteorder.h", "uint8 tmp, *ux = (uint8 *)(x);", "uint8 tmp, *ux = (uint8 *)x;", "PROV.F5-swap-target")
+M("C06", "swap: swaps the next sample", "src/fe_interface.c", "                    SWAP_FLOAT32(fe->overflow_samps + i);", "                    SWAP_FLOAT32(fe->overflow_samps + i + 1);", "PROV.F5-swap-target")
 M("C06", "fe: stale assert returns", FI, "        *spch += *inout_nsamps;\n    }\n    fe->num_overflow_samps += (int)*inout_nsamps;", "        *spch += *inout_nsamps;\n    }\n    assert(*inout_nsamps <= MAX_INT16);\n    fe->num_overflow_samps += (int)*inout_nsamps;", "GUARD.F4-size-asserts")
 M("C06", "fe: int16 append one short", FI, """        for (i = 0; i < *inout_nsamps; ++i) {
             int16 sample = (*spch)[i];""", """        for (i = 0; i + 1 < *inout_nsamps; ++i) {
